@@ -13,5 +13,5 @@ CONSTANTS
   FixShort = FALSE
   FixNilReq = FALSE
 
-INVARIANTS CorrectModuloKnown EmitDone
+INVARIANTS TypeOK OwnIndexOnly CorrectModuloKnown EmitDone
 CHECK_DEADLOCK FALSE
